@@ -61,7 +61,7 @@ func checkC06(w *World, r *Report) {
 	c06Handler(w, r, "C06.a", "a-range-arithmetic")
 	c06ReadLog(w, r, "C06.b", "b-three-way-decision")
 	c06Dense(w, r, "C06.c", "c-dense-ordered-labelled")
-	c06Cache(w, r)
+	c06Cache(w, r, "C06.d", "d-cache-hygiene")
 	c06SizeCut(w, r)
 }
 
@@ -313,11 +313,48 @@ func c06Dense(w *World, r *Report, id, slug string) {
 		ob.Undecided("anchor", "handler or entry conversion not found")
 		return
 	}
+	// the command of an entry is emitted by append(commands, cmd) or by commands[i] = cmd (with
+	// commands made len(entries) long and i the index of the entry)
 	var appends []ssa.Instruction
+	emitted := func(in ssa.Instruction) []ssa.Value {
+		if c := plainCall(in); c != nil {
+			return appendedValues(c)
+		}
+		if st, ok := in.(*ssa.Store); ok {
+			return []ssa.Value{st.Val}
+		}
+		return nil
+	}
 	eachInstr(fn, func(in ssa.Instruction) {
 		if c := plainCall(in); c != nil && CalleeName(c) == "builtin.append" {
 			if s, ok := c.Args[0].Type().Underlying().(*types.Slice); ok && typeIs(s.Elem(), pbPkg, "ReplicateCommand") {
 				appends = append(appends, in)
+			}
+		}
+		if st, ok := in.(*ssa.Store); ok {
+			if ia, ok := st.Addr.(*ssa.IndexAddr); ok {
+				if sl, ok := ia.X.Type().Underlying().(*types.Slice); ok && typeIs(sl.Elem(), pbPkg, "ReplicateCommand") {
+					appends = append(appends, in)
+					idx := Expr(ia.Index)
+					ob.Site(in.Pos(), "commands["+idx+"] assigned")
+					// the slot is the entry's own position and the slice has one slot per entry
+					okIdx := false
+					for _, v := range emitted(in) {
+						if al, ok := v.(*ssa.Alloc); ok {
+							for _, lst := range storesToField(fn, al, "LeaderIndex") {
+								if strings.Contains(Expr(lst.Val), "["+idx+"].Index") {
+									okIdx = true
+								}
+							}
+						}
+					}
+					if !okIdx {
+						ob.Violate("slot-index", in.Pos(), "the command is stored at position `"+idx+"`, which is not the position of its entry")
+					}
+					if mk, ok := ia.X.(*ssa.MakeSlice); !ok || !strings.Contains(Expr(mk.Len), "len(") || !strings.Contains(Expr(mk.Len), "QueryRaftLog(") {
+						ob.Violate("slot-count", in.Pos(), "the command slice assigned by position is not made with one slot per returned entry")
+					}
+				}
 			}
 		}
 	})
@@ -351,7 +388,7 @@ func c06Dense(w *World, r *Report, id, slug string) {
 			}
 		}
 		// label
-		for _, v := range appendedValues(plainCall(ap)) {
+		for _, v := range emitted(ap) {
 			al, ok := v.(*ssa.Alloc)
 			if !ok {
 				continue
@@ -445,8 +482,8 @@ func c06Dense(w *World, r *Report, id, slug string) {
 	ob.NeedFloor(4)
 }
 
-func c06Cache(w *World, r *Report) {
-	ob := r.Ob("C06.d", "d-cache-hygiene", "stores to the cache's buffer field occur only in its constructor and its append helper, which is called only by put; every call of put in the cached reader is reachable only over an edge establishing one of: cache len()==0, len(served cached run) >= 1, first new entry's Index - largestIndex() == 1; the event dispatcher reaches LogCache.LogCompacted / NodeDeleted on the log-compacted / node-deleted arm and those delete the shard's cache", "a gap inside the cache is served as if the log were dense; a cache that survives compaction serves indices the log no longer has")
+func c06Cache(w *World, r *Report, id, slug string) {
+	ob := r.Ob(id, slug, "stores to the cache's buffer field occur only in its constructor and its append helper, which is called only by put; every call of put in the cached reader is reachable only over an edge establishing one of: cache len()==0, len(served cached run) >= 1, first new entry's Index - largestIndex() == 1; the event dispatcher reaches LogCache.LogCompacted / NodeDeleted on the log-compacted / node-deleted arm and those delete the shard's cache", "a gap inside the cache is served as if the log were dense; a cache that survives compaction serves indices the log no longer has")
 	cacheT := w.NamedType("storage/logreader", "cache")
 	if cacheT == nil {
 		ob.Undecided("anchor", "storage/logreader.cache not found")
